@@ -32,8 +32,10 @@ Fixpoint bs (s : string) : bytes :=
    only lets the theorems say what an object is expected to hold.
    KPlain: Reply(command=..)                       (_esc = None)
    KNoEsc: .enhanced_status_code = False           (banner, HELO)
-   KHello: same, and the message is replaced by parse_string's header when the
-           code is 250 (EHLO, LHLO) *)
+   KHello: an EHLO/LHLO slot whose call has RETURNED: created as KNoEsc, turned
+           into KHello by the tail of ehlo()/lhlo(), which also replaces the
+           message by parse_string's header when the code is 250.  (A hello slot
+           whose call raised stays KNoEsc: it is filled later like any other.) *)
 Inductive kind := KPlain | KNoEsc | KHello.
 Definition esc0 (k : kind) : esc := match k with KPlain => EscNone | _ => EscFalse end.
 
@@ -78,6 +80,9 @@ Fixpoint upd {A} (l : list A) (i : nat) (f : A -> A) : list A :=
 Definition get_obj (st : cstate) (id : nat) : robj := nth id (s_objs st) dummy_obj.
 Definition set_obj (st : cstate) (id : nat) (r : reply) : cstate :=
   set_objs st (upd (s_objs st) id (fun o => mkObj (o_cmd o) (o_kind o) r)).
+(* the same, also setting the ghost kind *)
+Definition set_obj_k (st : cstate) (id : nat) (k : kind) (r : reply) : cstate :=
+  set_objs st (upd (s_objs st) id (fun o => mkObj (o_cmd o) k r)).
 
 (* exceptions a method can raise *)
 Inductive exn :=
@@ -259,14 +264,14 @@ Section Client.
     if beqb (r_code r) C250 then
       let '(hdr, exts) := parse_string (get_message r) in
       let st1 := if s_lmtp st then set_rcpttos st [] else st in
-      set_obj (set_exts st1 exts) id (set_message udigit uspace r hdr)
-    else st.
+      set_obj_k (set_exts st1 exts) id KHello (set_message udigit uspace r hdr)
+    else set_obj_k st id KHello r.                  (* ghost only *)
 
   Definition hello_method (verb : bytes) (a : list N) (st : cstate) : cstate * result :=
     match enc_ascii a with
     | None => (st, RExn XEncode)
     | Some ab =>
-        match command_method verb KHello (verb ++ [32] ++ ab ++ CRLF) true st with
+        match command_method verb KNoEsc (verb ++ [32] ++ ab ++ CRLF) true st with
         | (st1, RObj id) => (hello_post id st1, RObj id)
         | other => other
         end
@@ -422,6 +427,17 @@ Section Client.
     && match ls with [] => false | _ => true end
     && forallb no_lf ls
     && match utf8_dec (join CRLF ls) with Some _ => true | None => false end.
+
+  (* a reply that is fine on the wire but whose text is not UTF-8 (ISO-8859-1 text,
+     truncated sequences, lone continuation bytes, overlongs): recv_reply raises
+     BadReply for it - after having consumed it *)
+  Definition bad_utf8 (r : sreply) : bool :=
+    let '(c, ls) := r in
+    code_ok c && forallb is_digit c
+    && match ls with [] => false | _ => true end
+    && forallb no_lf ls
+    && match utf8_dec (join CRLF ls) with Some _ => false | None => true end.
+  Definition script_ok (r : sreply) : bool := wf_reply r || bad_utf8 r.
 
   Definition rtext (r : sreply) : list N :=
     match utf8_dec (join CRLF (snd r)) with Some t => t | None => [] end.
